@@ -57,6 +57,19 @@ def make(cfg_in):
                                   index=list(idx[1])[:cfg['nr']] if idx else None, extra=cfg['extra'],
                                   key_name=cfg['r_key'], extra_none=xnone)
         lo, ro = _opt(c, 'outattrs', cfg['out_attrs'])
+        l_key = 'id'
+        if cfg.get('l_key_is_attr'):
+            # the left table is keyed by its join attribute (no separate key column): values must be
+            # present and pairwise different strings
+            j = Lt.columns.index('id')
+            Lt.columns.pop(j)
+            Lt.rows = [r[:j] + r[j + 1:] for r in Lt.rows]
+            l_key = 'attr'
+            cells = [r[Lt.columns.index('attr')] for r in Lt.rows]
+            for a in range(len(cells)):
+                c.assume(cells[a].ntok >= 1)
+                for b_ in range(a + 1, len(cells)):
+                    c.assume(cells[a].toks[0] != cells[b_].toks[0])
         s = dict(entry=entry, filter=cfg['filter'], measure=measure, kind=cfg['kind'],
                  threshold=_opt(c, 'thr', cfg['thresholds']),
                  comp_op=_opt(c, 'op', cfg['comp_ops']),
@@ -64,7 +77,7 @@ def make(cfg_in):
                  allow_missing=_opt(c, 'am', cfg['allow_missing']),
                  out_sim_score=_opt(c, 'oss', cfg['out_sim_score']),
                  n_jobs=_opt(c, 'nj', cfg['n_jobs']),
-                 l_key='id', r_key=cfg['r_key'], l_attr='attr', r_attr='attr',
+                 l_key=l_key, r_key=cfg['r_key'], l_attr='attr', r_attr='attr',
                  l_out_attrs=list(lo) if lo is not None else None,
                  r_out_attrs=[cfg['r_key'] if x == 'id' else x for x in ro] if ro is not None else None,
                  l_out_prefix=cfg['l_out_prefix'], r_out_prefix=cfg['r_out_prefix'],
